@@ -15,7 +15,8 @@ use crate::report::Report;
 use crate::sched;
 use crate::util::{Fnv, HRng};
 
-const KINDS: [&str; 10] = [
+const KINDS: [&str; 11] = [
+    "init_first_attempts_invalid",
     "logp_unrecoverable",
     "logp_recoverable",
     "storage_record",
@@ -231,6 +232,12 @@ fn run_fcase(report: &mut Report, c: &FCase, stallcheck: bool) -> bool {
         "model_math_controller" => spec.model_faults = ModelFaults { math_fail_chains: vec![-1], ..Default::default() },
         "init_position_error" => spec.model_faults = ModelFaults { init_fail_chains: c.chains.clone(), ..Default::default() },
         "init_all_invalid" => spec.model_faults = ModelFaults { init_invalid_chains: c.chains.clone(), ..Default::default() },
+        "init_first_attempts_invalid" => {
+            // a bad starting point is not a failure: the chain retries and the run must succeed
+            expect_err = false;
+            let k = 1 + (c.place_frac * 6.0) as u64;
+            spec.model_faults = ModelFaults { init_invalid_first: c.chains.iter().map(|ch| (*ch, k)).collect(), ..Default::default() };
+        }
         _ => {}
     }
     spec.script = c.script.clone();
@@ -290,7 +297,8 @@ fn run_fcase(report: &mut Report, c: &FCase, stallcheck: bool) -> bool {
         Final::Err(e, _) => {
             outcome = "err";
             if !expect_err {
-                report.violation(sig("recoverable_error_reported_as_failure"), e.clone(), replay.clone());
+                let what = if c.kind == "init_first_attempts_invalid" { "retried_initialisation_reported_as_failure" } else { "recoverable_error_reported_as_failure" };
+                report.violation(sig(what), e.clone(), replay.clone());
             }
         }
         Final::Aborted(..) | Final::AbortErr(_) => {
@@ -313,7 +321,7 @@ fn run_fcase(report: &mut Report, c: &FCase, stallcheck: bool) -> bool {
 
 pub fn run(args: &Args, report: &mut Report) {
     report.rule = "cases = preset x fault kind (unrecoverable logp error in one / two / several chains, recoverable logp errors, storage record_sample / \
-        finalize / initialize error, Model::math error in a chain / in the controller, init_position error, all 500 initialisations invalid) x place \
+        finalize / initialize error, Model::math error in a chain / in the controller, init_position error, all 500 initialisations invalid, only the first few initial points invalid) x place \
         (initialisation, first draw, warmup, warmup/sampling boundary, last draw) x faulty chain(s) x num_chains vs num_cores x schedule perturbation x \
         interleaved user commands (storm, wait, direct abort); distinct = (preset, kind, place, several chains, chains > cores, outcome)".into();
     report.assumptions.push("a direct abort() is only required not to panic or hang; whether it returns Err or a prefix trace is recorded, not judged".into());
